@@ -1438,6 +1438,151 @@ def _inline_module(tree: ast.Module) -> None:
                     drop_def(cls, callee)
 
 
+def _bind_closure(call: ast.Call, fn: FuncNode) -> T.Optional[T.Dict[str, ast.AST]]:
+    """Parameter -> argument expression of a direct call of a local helper (positional, keyword, keyword-only, defaults); None when the
+    call cannot be bound statically (star arguments, *args / **kwargs parameters, missing or doubled arguments)."""
+    a = fn.args
+    if a.vararg or a.kwarg or any(isinstance(x, ast.Starred) for x in call.args) or any(k.arg is None for k in call.keywords):
+        return None
+    pos = [x.arg for x in a.posonlyargs + a.args]
+    kwo = [x.arg for x in a.kwonlyargs]
+    if len(call.args) > len(pos):
+        return None
+    out: T.Dict[str, ast.AST] = dict(zip(pos, call.args))
+    for k in call.keywords:
+        if k.arg in out or k.arg not in pos[len(a.posonlyargs):] + kwo:
+            return None
+        out[k.arg] = k.value       # type: ignore[index]
+    # a default is evaluated when the helper is defined, not when it is called: only constants are read through
+    for p_, d_ in zip(pos[len(pos) - len(a.defaults):], a.defaults):
+        if isinstance(d_, ast.Constant):
+            out.setdefault(p_, d_)
+    for p_, d_ in zip(kwo, a.kw_defaults):
+        if isinstance(d_, ast.Constant):
+            out.setdefault(p_, d_)
+    return out if set(out) == set(pos + kwo) else None
+
+
+def _stable_expr(e: ast.AST) -> bool:
+    return attr_chain(e) is not None or isinstance(e, ast.Constant)
+
+
+def _inline_closures(holder: FuncNode) -> None:
+    """N15  a local helper `def h(p..): BODY` defined inside a function and used there only by direct calls is read at its calls
+    (the closure never escapes, so its free variables are the holder's variables at the time of the call):
+      * expression form: BODY is `return E`  ->  every `h(a..)` becomes E[p := a]   (an argument that is not a name / attribute chain /
+        constant must be used at most once in E);
+      * statement form: BODY has no `return` and `h(a..)` is a whole statement  ->  BODY[p := a] in its place (an unstable argument, or a
+        parameter that BODY rebinds, is first bound to a local); locals of BODY that the holder also uses are renamed `x__h`.
+    Anything else (generators, decorators, recursion, the name used other than by calling it, calls from inside another nested scope,
+    `return` in a statement-form body) is left as written: the helper stays a nested scope that no rule reads as the holder's code."""
+    for _round in range(3):
+        nested = [n for n in walk_no_nested(holder, include_root=False) if isinstance(n, (ast.FunctionDef, ast.AsyncFunctionDef))]
+        nested = [h for h in nested if isinstance(h, ast.FunctionDef) and not h.decorator_list]
+        progress = False
+        for h in nested:
+            name = h.name
+            body = _doc_stripped(h.body)
+            inner = [n for n in ast.walk(h) if n is not h]
+            if not body or any(isinstance(n, (ast.Yield, ast.YieldFrom, ast.Await, ast.FunctionDef, ast.AsyncFunctionDef, ast.Lambda, ast.ClassDef, ast.Global))
+                               for n in inner):
+                continue
+            if any(isinstance(n, ast.Name) and n.id == name for n in inner):
+                continue       # recursive
+            loads = [n for n in ast.walk(holder) if isinstance(n, ast.Name) and n.id == name]
+            calls = [n for n in walk_no_nested(holder, include_root=False) if isinstance(n, ast.Call) and isinstance(n.func, ast.Name) and n.func.id == name]
+            if not calls or len(loads) != len(calls) or sum(1 for n in walk_no_nested(holder, include_root=False)
+                                                             if isinstance(n, (ast.FunctionDef, ast.AsyncFunctionDef, ast.ClassDef)) and n.name == name) != 1:
+                continue       # used other than by a direct call from the holder's own scope, or defined twice
+            params = [x.arg for x in h.args.posonlyargs + h.args.args + h.args.kwonlyargs]
+            nonloc = {g for n in inner if isinstance(n, ast.Nonlocal) for g in n.names}
+            stored = {n.id for n in inner if isinstance(n, ast.Name) and isinstance(n.ctx, (ast.Store, ast.Del))} - nonloc
+            comp_targets = {n.id for c_ in inner if isinstance(c_, ast.comprehension) for n in ast.walk(c_.target) if isinstance(n, ast.Name)}
+            if comp_targets & set(params):
+                continue
+            binds = [_bind_closure(c_, h) for c_ in calls]
+            if any(b is None for b in binds):
+                continue
+            nload = {p_: sum(1 for n in inner if isinstance(n, ast.Name) and n.id == p_ and isinstance(n.ctx, ast.Load)) for p_ in params}
+            if len(body) == 1 and isinstance(body[0], ast.Return) and body[0].value is not None and not stored:
+                expr = body[0].value
+                if not all(_stable_expr(v) or nload[p_] <= 1 for b in binds for p_, v in b.items()):     # type: ignore[union-attr]
+                    continue
+                for c_, b in zip(calls, binds):
+                    new_e = _relocate(_subst_params([ast.Expr(value=_copy.deepcopy(expr))], b)[0].value, c_)     # type: ignore[attr-defined,arg-type]
+                    for par in ast.walk(holder):
+                        for field, val in ast.iter_fields(par):
+                            if val is c_:
+                                setattr(par, field, new_e)
+                            elif isinstance(val, list):
+                                for i_, v_ in enumerate(val):
+                                    if v_ is c_:
+                                        val[i_] = new_e
+            else:
+                if any(isinstance(n, ast.Return) for n in inner):
+                    continue
+                stmts = [(st, c_) for c_ in calls for st in ast.walk(holder) if isinstance(st, ast.Expr) and st.value is c_]
+                if len(stmts) != len(calls):
+                    continue
+                hnames = {n.id for n in walk_no_nested(holder) if isinstance(n, ast.Name)} | {x.arg for x in ast.walk(holder.args) if isinstance(x, ast.arg)}
+                body2 = [st for st in body if not isinstance(st, ast.Nonlocal)]
+                for (stmt, c_), b in zip(stmts, binds):
+                    pre: T.List[ast.stmt] = []
+                    mapping: T.Dict[str, ast.AST] = {}
+                    rename: T.Dict[str, str] = {x: f'{x}__{name}' for x in (stored - set(params)) & hnames}
+                    for p_, v in b.items():      # type: ignore[union-attr]
+                        same = isinstance(v, ast.Name) and v.id == p_
+                        if p_ in stored:       # BODY rebinds its parameter: a local of its own, initialised from the argument
+                            rename[p_] = f'{p_}__{name}' if p_ in hnames else p_
+                            pre.append(ast.Assign(targets=[ast.Name(id=rename[p_], ctx=ast.Store())], value=_copy.deepcopy(v)))
+                        elif same:
+                            pass       # `h(x)` with parameter x that BODY only reads (or mutates in place): the holder's own x
+                        elif _stable_expr(v):
+                            mapping[p_] = v
+                        else:
+                            rename[p_] = f'{p_}__{name}' if p_ in hnames else p_
+                            pre.append(ast.Assign(targets=[ast.Name(id=rename[p_], ctx=ast.Store())], value=_copy.deepcopy(v)))
+
+                    class _RN(ast.NodeTransformer):
+                        def visit_Name(self, n: ast.Name) -> ast.AST:
+                            if n.id in rename and rename[n.id] != n.id:
+                                return ast.copy_location(ast.Name(id=rename[n.id], ctx=n.ctx), n)
+                            return n
+                    nb = [_RN().visit(x) for x in _subst_params(body2, mapping)]
+                    new = [ast.fix_missing_locations(_relocate(x, stmt)) for x in pre + nb]
+                    _replace_stmt_in(holder, stmt, new)
+            _drop_stmt_in(holder, h)
+            progress = True
+        if not progress:
+            break
+
+
+def _replace_stmt_in(holder: FuncNode, target: ast.stmt, new: T.List[ast.stmt]) -> bool:
+    def rec(stmts: T.List[ast.stmt]) -> bool:
+        for i, st in enumerate(stmts):
+            if st is target:
+                stmts[i:i + 1] = new if new or len(stmts) > 1 else [ast.copy_location(ast.Pass(), target)]
+                return True
+            if isinstance(st, (ast.FunctionDef, ast.AsyncFunctionDef, ast.ClassDef)):
+                continue
+            for field in ('body', 'orelse', 'finalbody'):
+                sub = getattr(st, field, None)
+                if isinstance(sub, list) and sub and isinstance(sub[0], ast.stmt) and rec(sub):
+                    return True
+            for h in getattr(st, 'handlers', []):
+                if rec(h.body):
+                    return True
+            for cs in getattr(st, 'cases', []):
+                if rec(cs.body):
+                    return True
+        return False
+    return rec(holder.body)
+
+
+def _drop_stmt_in(holder: FuncNode, target: ast.stmt) -> bool:
+    return _replace_stmt_in(holder, target, [])
+
+
 def _relocate_keep(node: ast.AST, at: ast.AST) -> ast.AST:
     """Give nodes without a position the position of `at` (nodes moved from elsewhere keep theirs only if inside `at`'s range)."""
     lo, hi = getattr(at, 'lineno', 0), getattr(at, 'end_lineno', getattr(at, 'lineno', 0))
@@ -1487,6 +1632,10 @@ class NormModule(Module):
             for n in ast.walk(self.tree):
                 if isinstance(n, (ast.FunctionDef, ast.AsyncFunctionDef)):
                     n.body = [_K().visit(b) for b in n.body]
+        # N15 local helpers (closures) read at their calls: in every function that defines one
+        for st in list(self.tree.body) + [x for c_ in self.tree.body if isinstance(c_, ast.ClassDef) for x in c_.body]:
+            if isinstance(st, (ast.FunctionDef, ast.AsyncFunctionDef)) and any(isinstance(n, ast.FunctionDef) for n in ast.walk(st) if n is not st):
+                _inline_closures(st)
         nfun = sum(1 for n in ast.walk(self.tree) if isinstance(n, (ast.FunctionDef, ast.AsyncFunctionDef)))
         if nfun <= 120:         # the installer / uninstaller modules; the big backend modules are read for tables only
             try:
